@@ -40,7 +40,7 @@ Observe(d, s, o) ==
   ELSE <<"", "">>
 
 Rec == Trace[i]
-Tags(r) == (IF r.data.anom = 1 THEN "anomalies_flag," ELSE "")
+Tags(r) == r.repr \o "," \o (IF r.data.anom = 1 THEN "anomalies_flag," ELSE "")
            \o (IF Len(r.data.time) % r.data.cycle # 0 THEN "cycle_not_dividing," ELSE "")
            \o "steps" \o ToString(Len(r.steps))
 Init == i = 1 /\ l = 1 /\ st = <<>>
